@@ -618,6 +618,18 @@ func (Prop) Run(p *core.Plan) *core.Result {
 		res.Probes["runs_with_recycled_objects"]++
 	}
 	res.Probes["operations_checked"] += nops
+	// measured reach: distinct interleavings (task-switch sequences) and distinct point states
+	res.Sets = map[string][]uint64{}
+	if len(w2.SwitchLog) > 1 {
+		res.Sets["interleavings"] = []uint64{core.Hash(fmt.Sprint(w2.SwitchLog))}
+	}
+	for _, t := range inter {
+		for i, o := range t.obs {
+			if i < 64 {
+				res.Sets["point_states"] = append(res.Sets["point_states"], core.Hash(o))
+			}
+		}
+	}
 	res.Sample = map[string]interface{}{"tasks": len(w.Tasks), "first_segment": renderSeg(&w.Tasks[0][0])}
 	return res
 }
